@@ -209,8 +209,8 @@ theorem trace_spec_zero (L : Nat) (hS : Lawful S (2 ^ (L + 1))) (hL1 : 2 ≤ L) 
     (by simp [term, rot_zero hS (by omega) (by omega)])
   rw [this, hS.add_eq]; rfl
 
-/-- `logN = L-1`: nothing to sum, `Trace` copies its input. -/
 omit [AddCommMonoid α] in
+/-- `logN = L-1`: nothing to sum, `Trace` copies its input. -/
 theorem trace_spec_top (S : Ops α) (rt : RingType) (L : Nat) (hL1 : 2 ≤ L) (hL : L ≤ 62) (v : α) :
     (trace S rt L v ((L - 1 : Nat) : Int)).val? = some v := by
   unfold trace
